@@ -6,3 +6,5 @@ python3 tools/extract_consts.py >/dev/null
 (cd lean && lake build)
 [ -f harness/Cargo.lock ] || cp /repo/Cargo.lock harness/Cargo.lock
 (cd harness && CARGO_NET_OFFLINE=true cargo build --release --offline)
+# second build of the harness against the rustls backend of the library (C14)
+(cd harness && CARGO_NET_OFFLINE=true cargo build --release --offline --no-default-features --features backend-rustls --target-dir target-rustls)
